@@ -213,26 +213,41 @@ Section C05span.
               solve_period_M SpList span d o lab s = solve_t_M d o (Z.of_nat i) s.
   Proof. exact (solve_period_repeated_label_list num sub absf ltb isfin zero ev before after span d o lab s). Qed.
 
-  (* iter_periods(start, end): one (position, label) pair per position from `start` to `end` inclusive (defaults: position
-     lags and position len-1-leads), in span order, for every supported span type *)
+  (* iter_periods(start, end): one (position, label) pair per position from `start` to `end` inclusive, in span order, for every
+     supported span type.  Defaults are the POSITIONS lags and len-1-leads (fix 7cd6323) and need no condition on the labels —
+     the span may repeat labels anywhere; only a label the caller GIVES must be carried by one period only
+     (given_unique span x pos = unique_at span pos when x was given, true for a default) *)
   Theorem C05_iter_periods_every_span k span d start end_ a b :
-    NoDup span -> resolves_start Z d span start a -> resolves_end Z d span end_ b ->
+    given_unique span start a = true -> given_unique span end_ b = true ->
+    resolves_start Z d span start a -> resolves_end Z d span end_ b ->
     iter_periods_M Z (locate_span k span) d span start end_ = Ret ((S b - a)%nat, periods Z span a b).
-  Proof. exact (iter_periods_every_span k span d start end_ a b). Qed.
+  Proof. exact (iter_periods_every_span_given k span d start end_ a b). Qed.
 
-  (* solve(start, end) = the fold of solve_t over those positions, for every supported span type *)
+  (* solve(start, end) = the fold of solve_t over those positions, for every supported span type; same guards: none for defaults *)
   Theorem C05_solve_every_span k span d o start end_ s a b :
-    min_iter o <= max_iter o -> NoDup span ->
+    min_iter o <= max_iter o ->
+    given_unique span start a = true -> given_unique span end_ b = true ->
     resolves_start Z d span start a -> resolves_end Z d span end_ b ->
     solve_M k span d o span start end_ s =
     match run_periods d o (periods Z span a b) s [] with
     | (s', Ret vs) => (s', Ret (mkRes (S b - a) vs))
     | (s', Raise e) => (s', Raise e)
     end.
-  Proof. exact (solve_every_span num sub absf ltb isfin zero ev before after k span d o start end_ s a b). Qed.
+  Proof. exact (solve_every_span_given num sub absf ltb isfin zero ev before after k span d o start end_ s a b). Qed.
+  (* solve() with default start and end on ANY span (repeated, falsy, arbitrary labels; any supported type): every period from
+     position lags to position len-1-leads is visited.  This REPLACES the refutation of the former finding
+     "defaults looked up by label" (repaired by 7cd6323). *)
+  Theorem C05_solve_defaults_any_span k span d o s :
+    min_iter o <= max_iter o -> (lags d + leads d < length span)%nat ->
+    solve_M k span d o span None None s =
+    match run_periods d o (periods Z span (lags d) (length span - 1 - leads d)) s [] with
+    | (s', Ret vs) => (s', Ret (mkRes (S (length span - 1 - leads d) - lags d) vs))
+    | (s', Raise e) => (s', Raise e)
+    end.
+  Proof. exact (solve_defaults_any_span num sub absf ltb isfin zero ev before after k span d o s). Qed.
   (* the sharp guard: solve(start, end) = the fold over positions a..b as soon as the label of period a and the label of period b
-     are each carried by exactly one period (the other periods may share labels) — for every supported span type.  The kept
-     finding C05_default_range_repeated_label_refuted is precisely the failure of this guard for a default end. *)
+     are each carried by exactly one period (the other periods may share labels) — for every supported span type (a special case of
+     C05_solve_every_span, kept for its explicit form). *)
   Theorem C05_solve_unique_ends k span d o start end_ s a b xs xe :
     min_iter o <= max_iter o ->
     nth_error span a = Some xs -> nth_error span b = Some xe ->
@@ -297,19 +312,31 @@ Section C05defaults.
   Proof. exact (solve_default_end_beyond_span num sub absf ltb isfin zero ev before after L locate d o span start a s). Qed.
 End C05defaults.
 
-(* KEPT FINDING: the defaults of solve() / iter_periods() are positions turned into labels and looked up again, so "default
-   start / end = first period with enough lags through last with enough leads" is REFUTED on a span in which the label of the
-   default period is carried by several periods (here lags = leads = 0 and four periods, the last two with the same label):
-   a list leaves period 3 silently unsolved, a NumPy array raises KeyError, a pandas Index TypeError.  The theorems above
-   carry the guard `NoDup span` / `locate_ok` that excludes exactly this class. *)
-Theorem C05_default_range_repeated_label_refuted :
-  exists sc d o span s,
-    lags d = 0%nat /\ leads d = 0%nat /\ length span = 4%nat /\ length (status s) = 4%nat /\ min_iter o <= max_iter o /\
-    (exists res, snd (f_solve sc d o 0 span [] None None s) = Ret res /\ r_len res = 3%nat /\
-                 nth_error (status (fst (f_solve sc d o 0 span [] None None s))) 3 = Some Unsolved) /\
-    snd (f_solve sc d o 1 span [] None None s) = Raise KeyError /\
-    snd (f_solve sc d o 3 span [] None None s) = Raise TypeError.
-Proof. exact default_range_repeated_label_refuted. Qed.
+(* for ANY lookup whatever (generic `locate`): only labels the caller GIVES must resolve to their positions (given_ok);
+   defaults are never looked up *)
+Section C05given.
+  Variable num : Type.
+  Variables (sub : num -> num -> num) (absf : num -> num) (ltb : num -> num -> bool)
+            (isfin : num -> bool) (zero : num).
+  Variables (ev before after : hook num).
+  Variable L : Type.
+  Variable locate : L -> locres.
+  Notation run_periods := (run_periods num sub absf ltb isfin zero ev before after L).
+  Notation solve_M := (solve_M num sub absf ltb isfin zero ev before after L locate).
+  Theorem C05_iter_periods_given d span start end_ a b :
+    given_ok L locate start a -> given_ok L locate end_ b -> resolves_start L d span start a -> resolves_end L d span end_ b ->
+    iter_periods_M L locate d span start end_ = Ret ((S b - a)%nat, periods L span a b).
+  Proof. exact (iter_periods_given L locate d span start end_ a b). Qed.
+  Theorem C05_solve_eq_fold_given d o span start end_ s a b :
+    min_iter o <= max_iter o -> given_ok L locate start a -> given_ok L locate end_ b ->
+    resolves_start L d span start a -> resolves_end L d span end_ b ->
+    solve_M d o span start end_ s =
+    match run_periods d o (periods L span a b) s [] with
+    | (s', Ret vs) => (s', Ret (mkRes (S b - a) vs))
+    | (s', Raise e) => (s', Raise e)
+    end.
+  Proof. exact (solve_eq_fold_given num sub absf ltb isfin zero ev before after L locate d o span start end_ s a b). Qed.
+End C05given.
 
 (* the guards are decidable *)
 Theorem C05_nodup_b_spec l : nodup_b l = true <-> NoDup l.
@@ -449,7 +476,11 @@ Print Assumptions C05_solve_start_before_lags_rejected.
 Print Assumptions C05_solve_default_start_beyond_span.
 Print Assumptions C05_solve_default_end_beyond_span.
 Print Assumptions exS_defaults_beyond_span.
-Print Assumptions C05_default_range_repeated_label_refuted.
+Print Assumptions C05_solve_defaults_any_span.
+Print Assumptions C05_iter_periods_given.
+Print Assumptions C05_solve_eq_fold_given.
+Print Assumptions exS_default_end_repeated_label.
+Print Assumptions exS_given_repeated_label.
 Print Assumptions C05_solve_unique_ends_b.
 Print Assumptions C05_solve_period_unique_label.
 Print Assumptions C05_nodup_b_spec.
